@@ -285,7 +285,8 @@ impl<T: BitRead> PackedRead for T {
             // 16.11
             (
                 self.read_length_determinant(lower_bound_size, upper_bound_size)?,
-                true,
+                // only an unconstrained length determinant is fragmented
+                const_is_none!(lower_bound_size) && const_is_none!(upper_bound_size),
             )
         };
 
@@ -356,7 +357,8 @@ impl<T: BitRead> PackedRead for T {
             // 17.8
             (
                 self.read_length_determinant(lower_bound_size, upper_bound_size)?,
-                true,
+                // only an unconstrained length determinant is fragmented
+                const_is_none!(lower_bound_size) && const_is_none!(upper_bound_size),
             )
         };
 
